@@ -43,6 +43,7 @@ type Engine struct {
 	externPkg      map[*FuncC]*types.Package
 	specs          map[string]*specInfo // pkgpath.name
 	lemmas         []*lemmaInfo
+	wires          []*wireInfo
 	axioms         []*axiomInfo
 	nopanic        map[*ssa.Function][]string // function -> property tags
 	tags           map[string]int
@@ -337,6 +338,9 @@ func (e *Engine) loadContracts() error {
 		}
 		for _, l := range cf.Lemmas {
 			e.lemmas = append(e.lemmas, &lemmaInfo{l, p.Types})
+		}
+		for _, w := range cf.Wires {
+			e.wires = append(e.wires, &wireInfo{w, p})
 		}
 		for _, ti := range cf.TypeInvs {
 			name := strings.TrimPrefix(ti.Type, "*")
